@@ -38,9 +38,10 @@ VARIABLES loose,   \* [Keys -> {"absent","good","bad"}]
           cur,     \* [Handles -> Nat]   cached _current_pack_id
           map,     \* L2 oracle: set of keys a plain mapping would hold
           repacked, \* ghost: some repack has happened (C13 speaks of histories without repack)
+          locked,  \* pack ids whose lock file lies in the packs folder (left by a killed writer: environment)
           last     \* the last call and its result (observation only)
 
-vars == <<loose, pack, pex, idx, pinned, snap, cur, map, repacked, last>>
+vars == <<loose, pack, pex, idx, pinned, snap, cur, map, repacked, locked, last>>
 core == <<loose, pack, pex, idx, pinned, snap, cur, map, repacked>>
 
 Junk == "junk"
@@ -158,6 +159,7 @@ Init == /\ loose = [k \in Keys |-> "absent"]
         /\ map = {}
         /\ repacked = FALSE
         /\ last = Rec("init", "-", <<>>, {}, "")
+        /\ locked = {}
 
 (* add_object / add_streamed_object (container.py:987-1016, utils.py:343-495):
    the index is not consulted; a damaged existing copy is replaced *)
@@ -329,16 +331,49 @@ Damage(k) ==
     /\ UNCHANGED <<pack, pex, idx, pinned, snap, cur, map, repacked>>
 
 -----------------------------------------------------------------------------
+(* Stale lock files (container.py:1100-1123).  A writer killed inside lock_pack leaves <pack>.lock behind.  The next
+   call that wants to write to that pack is refused with FileExistsError before it writes anything -- and lock_pack's
+   `finally` removes the lock file although this caller did not create it, so the call after that goes through.  The
+   actions above do not mention `locked`; NextWith and the conformance spec conjoin UNCHANGED locked to them and guard
+   the pack-writing ones with ~Blocked. *)
+FirstPack(h) == ChoosePack(cur[h], pack, pex)
+Blocked(h) == FirstPack(h) \in locked
+Refuse(h, rec, pin) ==
+    /\ Blocked(h)
+    /\ locked' = locked \ {FirstPack(h)}
+    /\ cur' = [cur EXCEPT ![h] = FirstPack(h)]
+    /\ IF pin THEN SelPin(h) ELSE KeepSession
+    /\ last' = rec
+    /\ UNCHANGED <<loose, pack, pex, idx, map, repacked>>
+Refusal == "FileExistsError"
+AddToPackRefused(h, ks, z, noholes, twice) ==
+    ks # <<>> /\ Refuse(h, [Rec("addpack", h, ks, {}, Refusal) EXCEPT !.z = z, !.nh = noholes, !.tw = twice], noholes)
+PackRefused(h, mode, perpack) ==
+    (LoosePresent \ KeysOf(V(h))) # {} /\ Refuse(h, [Rec("pack", h, <<>>, {}, Refusal) EXCEPT !.mode = mode, !.pp = perpack], TRUE)
+ImportFresh(h, S, samehash, src) == IF samehash THEN (S \cap src) \ (LoosePresent \cup KeysOf(V(h))) ELSE S \cap src
+ImportRefused(h, S, z, samehash, src) ==
+    ImportFresh(h, S, samehash, src) # {} /\ Refuse(h, [Rec("import", h, <<>>, {}, Refusal) EXCEPT !.S = S, !.z = z, !.sh = samehash], TRUE)
+(* environment: a writer was killed while it held the lock of the pack that is currently written to *)
+LockStale == /\ locked = {} /\ ChoosePack(0, pack, pex) <= MaxPack
+             /\ locked' = {ChoosePack(0, pack, pex)}
+             /\ last' = Rec("stalelock", "-", <<>>, {}, "")
+             /\ UNCHANGED core
+Unlock == /\ locked # {} /\ locked' = {}
+          /\ last' = Rec("unlock", "-", <<>>, {}, "")
+          /\ UNCHANGED core
+
+-----------------------------------------------------------------------------
 (* Next-state relation over a finite alphabet of arguments (used by the    *)
 (* exhaustive configurations and by the simulation that generates          *)
 (* histories for replay on the real library).                              *)
-NextWith(Batches, DelSets, HasSets, ImpSets, Src, PackModes, RepackModes) ==
-    \E h \in Handles :
+NextWithLocks(Batches, DelSets, HasSets, ImpSets, Src, PackModes, RepackModes, WithLocks) ==
+    \/ /\ UNCHANGED locked
+       /\ \E h \in Handles :
         \/ \E k \in Keys : AddLoose(h, k)
         \/ \E ks \in Batches, z \in BOOLEAN, nh \in BOOLEAN, tw \in BOOLEAN :
-              (nh \/ tw) /\ AddToPack(h, ks, z, nh, tw)
+              (nh \/ tw) /\ ~Blocked(h) /\ AddToPack(h, ks, z, nh, tw)
         \/ \E mode \in PackModes, pp \in BOOLEAN :
-              \E order \in SetToSeqs(LoosePresent \ KeysOf(V(h))) : PackAllLoose(h, mode, pp, order)
+              \E order \in SetToSeqs(LoosePresent \ KeysOf(V(h))) : (order = <<>> \/ ~Blocked(h)) /\ PackAllLoose(h, mode, pp, order)
         \/ Clean(h)
         \/ \E S \in DelSets : Delete(h, S)
         \/ \E mode \in RepackModes : Repack(h, mode)
@@ -347,10 +382,19 @@ NextWith(Batches, DelSets, HasSets, ImpSets, Src, PackModes, RepackModes) ==
         \/ ListPart(h)
         \/ \E k \in Keys : Loosen(h, k)
         \/ \E S \in ImpSets, z \in BOOLEAN, sh \in BOOLEAN :
-              \E order \in SetToSeqs(IF sh THEN (S \cap Src) \ (LoosePresent \cup KeysOf(V(h))) ELSE S \cap Src) :
-                  Import(h, S, z, sh, order, Src)
+              \E order \in SetToSeqs(ImportFresh(h, S, sh, Src)) :
+                  (order = <<>> \/ ~Blocked(h)) /\ Import(h, S, z, sh, order, Src)
         \/ Reopen(h)
         \/ InitAgain(h)
+    \/ /\ WithLocks
+       /\ \/ LockStale
+          \/ Unlock
+          \/ \E h \in Handles :
+                \/ \E ks \in Batches, z \in BOOLEAN, nh \in BOOLEAN, tw \in BOOLEAN : (nh \/ tw) /\ AddToPackRefused(h, ks, z, nh, tw)
+                \/ \E mode \in PackModes, pp \in BOOLEAN : PackRefused(h, mode, pp)
+                \/ \E S \in ImpSets, z \in BOOLEAN, sh \in BOOLEAN : ImportRefused(h, S, z, sh, Src)
+NextWith(Batches, DelSets, HasSets, ImpSets, Src, PackModes, RepackModes) ==
+    NextWithLocks(Batches, DelSets, HasSets, ImpSets, Src, PackModes, RepackModes, FALSE)
 
 -----------------------------------------------------------------------------
 (* Properties of the design                                                *)
@@ -358,6 +402,7 @@ Undamaged == \A k \in Keys : loose[k] # "bad"
 
 TypeOK == /\ loose \in [Keys -> {"absent", "good", "bad"}]
           /\ pex \subseteq PackIdsAll
+          /\ locked \subseteq PackIdsAll
           /\ map \subseteq Keys
 
 (* L1 refines L2: the store is the map *)
@@ -396,5 +441,5 @@ Act_DeleteExact ==
 Act_RepackCompact == [][ IsOp("repack") => RepackCompact(ObsOf') ]_vars
 
 Act_MaintenanceKeepsMap ==
-    [][ (last'.op \in {"pack", "clean", "repack", "loosen", "reopen", "has", "list", "listpart", "initagain"}) => map' = map ]_vars
+    [][ (last'.op \in {"pack", "clean", "repack", "loosen", "reopen", "has", "list", "listpart", "initagain", "stalelock", "unlock"}) => map' = map ]_vars
 =============================================================================
